@@ -116,6 +116,10 @@ def run(tier, seed):
                                request_sequence=path, table=msg if ok else None, problems=gate["problems"]))
         else:
             vlib.gate_or_violation(chk, gate)
+    # DESIGN 11.2e: the GetInfo, Stop and Continue arms of every wait loop are regenerated from the source by a
+    # second translator and proved equal to the model's (one response tagged with the loop's state; the job-control
+    # arms mean what the pause table means)
+    U.arms_gate(chk, PROP, gate)
     try:
         rig = e2e.Rig()
     except RuntimeError as ex:
